@@ -7,9 +7,11 @@ Local Open Scope N_scope.
 
 (* ---- the invariant of IpDefragBuf: sections well formed, pairwise neither
    overlapping nor touching; a byte of `data` is written (Some) exactly when a
-   section covers it; data length and u16 bounds as the code maintains them.
-   Established by new, kept by every successful add, and (model_step) an
-   erroneous add leaves the buffer as it was: every history, F8 included. ---- *)
+   section covers it; every section ends within `data`, `data` is empty or ends
+   where the last section ends, and has exactly the announced length once the
+   final fragment was seen (with the repair of F8 no section can lie beyond the
+   end any more); u16 bounds.  Established by new, kept by every successful add,
+   and (model_step) an erroneous add leaves the buffer as it was: every history. ---- *)
 Theorem C11_inv_new : forall ipn d s, Inv (buf_new ipn d s).
 Proof. exact Inv_new. Qed.
 Print Assumptions C11_inv_new.
@@ -27,9 +29,10 @@ Theorem C11_no_panic : forall b f, add b f <> AddPanic.
 Proof. exact add_never_panics. Qed.
 Print Assumptions C11_no_panic.
 
-(* ---- refinement: outside the known class F8 the buffer answers every delivery
-   of every history exactly like the Spec (verdict, completeness, payload) ---- *)
-Theorem C11_refines : forall h ipn d s, ~ KnownClass h ->
+(* ---- refinement: the buffer answers every delivery of EVERY history exactly
+   like the Spec (verdict with all error fields, completeness, payload).  Before
+   the repair of F8 this held only outside a known class. ---- *)
+Theorem C11_refines : forall h ipn d s,
   model_trace (buf_new ipn d s) h = spec_trace spec_new h.
 Proof. exact refines. Qed.
 Print Assumptions C11_refines.
@@ -43,8 +46,7 @@ Theorem C11_any_order : forall P h ipn d0 s0, len P <= 65535 -> Forall (frag_of 
   let b := model_run (buf_new ipn d0 s0) h in
   (is_complete b = true <-> Covered P h) /\
   (is_complete b = true -> b_data b = map Some P) /\
-  Forall (fun o : obs => fst (fst o) = VOk) (model_trace (buf_new ipn d0 s0) h) /\
-  ~ KnownClass h.
+  Forall (fun o : obs => fst (fst o) = VOk) (model_trace (buf_new ipn d0 s0) h).
 Proof. exact any_order. Qed.
 Print Assumptions C11_any_order.
 
@@ -67,7 +69,7 @@ Proof. exact cut_any_order. Qed.
 Print Assumptions C11_cut_any_order.
 
 (* ---- no leak: a completed buffer holds no byte that this datagram did not
-   write -- every history, the known class included ---- *)
+   write -- every history ---- *)
 Theorem C11_no_leak : forall h ipn d s,
   let b := model_run (buf_new ipn d s) h in
   is_complete b = true -> no_None (b_data b).
@@ -93,31 +95,145 @@ Theorem C11_reject_conflict : forall b f prev,
 Proof. exact reject_conflict. Qed.
 Print Assumptions C11_reject_conflict.
 
+(* the reject added by the repair of F8: the total length is not known yet and a
+   final fragment ends below the largest section end r (= the largest offset
+   received): ConflictingEnd{previous_end: r.end, conflicting_end}, buffer unchanged *)
+Theorem C11_reject_late_end : forall b f r,
+  f_endp f <= 65535 -> b_end b = None -> f_mf f = false ->
+  In r (b_sections b) -> (forall r', In r' (b_sections b) -> r_end r' <= r_end r) ->
+  f_endp f < r_end r ->
+  model_step b f = (VConflict (r_end r) (f_endp f), b).
+Proof. exact reject_late_end. Qed.
+Print Assumptions C11_reject_late_end.
+
 (* nothing else is rejected *)
 Theorem C11_accept : forall b f, accepts b f -> exists b', model_step b f = (VOk, b').
 Proof. exact accept_ok. Qed.
 Print Assumptions C11_accept.
 
-(* The fourth reject of the Spec -- a final fragment that ends below data that
-   was already accepted (VLateEnd) -- is NOT what the code does: finding F8.
-     full statement (refuted):  forall h, model_trace new h = spec_trace spec_new h
-   C11_refines above is that statement outside KnownClass; the witness: *)
+(* two consequences of the invariant for the repaired add: while the total length
+   is unknown the largest section end is the data length (the new check could
+   equally compare with data.len()), and an accepted final fragment never
+   shortens the data (the closing set_len(end) is a no-op) *)
+Theorem C11_section_max_is_data_len : forall b, Inv b -> b_end b = None ->
+  match sec_max (b_sections b) with
+  | Some m => m = len (b_data b)
+  | None => len (b_data b) = 0
+  end.
+Proof. exact sec_max_is_len. Qed.
+Print Assumptions C11_section_max_is_data_len.
+
+Theorem C11_final_set_len_noop : forall b f, Inv b -> accepts b f -> f_mf f = false ->
+  len (written b f) = f_endp f /\ take (f_endp f) (written b f) = written b f.
+Proof. exact final_set_len_noop. Qed.
+Print Assumptions C11_final_set_len_noop.
+
+(* ---- order independence of the verdict (what F8 violated) ----
+   Every delivery of h is answered Ok exactly when h is a consistent set of
+   fragments (each acceptable on its own; every final fragment ends at or beyond
+   the end of every fragment) -- a condition on the SET of fragments.  Hence for
+   any two orders of the same deliveries: both are accepted completely or both
+   contain a reject; and when accepted, the buffer is complete in both or in
+   neither (exactly when the set covers [0, end)).  Which delivery of an
+   inconsistent set is the rejected one necessarily depends on the order
+   (whatever arrives first is kept). *)
+Theorem C11_all_ok_iff_consistent : forall h ipn d s,
+  Forall okobs (model_trace (buf_new ipn d s) h) <-> consistent h.
+Proof. exact all_ok_iff. Qed.
+Print Assumptions C11_all_ok_iff_consistent.
+
+Theorem C11_order_independent : forall h1 h2 ipn d s, Permutation.Permutation h1 h2 ->
+  (Forall okobs (model_trace (buf_new ipn d s) h1) <-> Forall okobs (model_trace (buf_new ipn d s) h2)) /\
+  (Forall okobs (model_trace (buf_new ipn d s) h1) ->
+     is_complete (model_run (buf_new ipn d s) h1) = is_complete (model_run (buf_new ipn d s) h2)).
+Proof. exact order_independent. Qed.
+Print Assumptions C11_order_independent.
+
+Theorem C11_consistent_complete : forall h ipn d s, consistent h ->
+  (is_complete (model_run (buf_new ipn d s) h) = true <-> GCovered h).
+Proof. exact consistent_complete. Qed.
+Print Assumptions C11_consistent_complete.
+
+(* ---- regression for the former finding F8 (IpDefragBuf::add accepted a final
+   fragment that ends below data stored earlier; the reverse order was rejected).
+   With the repaired add both orders reject the second delivery, with exactly
+   these error values, and leave the buffer as it was; Model and Spec agree. *)
 Definition f8_first : frag := mkFrag 0 true [0;1;2;3;4;5;6;7;8;9;10;11;12;13;14;15].
 Definition f8_second : frag := mkFrag 1 false [170;187;204;221].
 
-Theorem C11_refines_refuted :
-  KnownClass [f8_first; f8_second] /\
-  model_trace (buf_new 17 [] []) [f8_first; f8_second] <> spec_trace spec_new [f8_first; f8_second] /\
-  (* accepted, complete, 12 bytes *)
-  map (fun o : obs => (fst (fst o), snd (fst o))) (model_trace (buf_new 17 [] []) [f8_first; f8_second])
-    = [(VOk, false); (VOk, true)] /\
-  option_map (@length _) (snd (last (model_trace (buf_new 17 [] []) [f8_first; f8_second]) (VOk, false, None)))
-    = Some 12%nat /\
-  (* the same two fragments in the other order: rejected *)
-  map (fun o : obs => fst (fst o)) (model_trace (buf_new 17 [] []) [f8_second; f8_first])
-    = [VOk; VConflict 12 16].
-Proof. exact f8_witness. Qed.
-Print Assumptions C11_refines_refuted.
+Example C11_f8_regression :
+  let ba := model_run (buf_new 17 [] []) [f8_first] in
+  let bz := model_run (buf_new 17 [] []) [f8_second] in
+  LateEndClass [f8_first; f8_second] /\
+  model_step ba f8_second = (VConflict 16 12, ba) /\
+  model_step bz f8_first = (VConflict 12 16, bz) /\
+  model_trace (buf_new 17 [] []) [f8_first; f8_second] = [(VOk, false, None); (VConflict 16 12, false, None)] /\
+  spec_trace spec_new [f8_first; f8_second] = [(VOk, false, None); (VConflict 16 12, false, None)] /\
+  model_trace (buf_new 17 [] []) [f8_second; f8_first] = [(VOk, false, None); (VConflict 12 16, false, None)] /\
+  spec_trace spec_new [f8_second; f8_first] = [(VOk, false, None); (VConflict 12 16, false, None)].
+Proof. exact f8_regression. Qed.
+
+(* several stored sections [0,8) [32,40) [16,24) (Vec order): the maximum 40 is
+   reported; a final fragment overlapping the top section but ending at 39 is
+   rejected; ending exactly at the maximum (40), or beyond, is accepted; the F8
+   pair with the final fragment reaching 16 completes *)
+Example C11_f8_variants :
+  let s0 := mkFrag 0 true [1;2;3;4;5;6;7;8] in
+  let s4 := mkFrag 4 true [41;42;43;44;45;46;47;48] in
+  let s2 := mkFrag 2 true [21;22;23;24;25;26;27;28] in
+  let b := model_run (buf_new 6 [] []) [s0; s4; s2] in
+  b_sections b = [mkRange 0 8; mkRange 32 40; mkRange 16 24] /\
+  model_step b (mkFrag 3 false [9;9;9]) = (VConflict 40 27, b) /\
+  model_step b (mkFrag 4 false [9;9;9;9;9;9;9]) = (VConflict 40 39, b) /\
+  fst (model_step b (mkFrag 4 false [9;9;9;9;9;9;9;9])) = VOk /\
+  fst (model_step b (mkFrag 5 false [])) = VOk /\
+  fst (model_step b (mkFrag 5 false [7])) = VOk /\
+  map (fun o : obs => fst o)
+      (model_trace (buf_new 6 [] []) [mkFrag 0 true [0;1;2;3;4;5;6;7;8;9;10;11;12;13;14;15];
+                                      mkFrag 1 false [170;187;204;221;1;2;3;4]])
+    = [(VOk, false); (VOk, true)].
+Proof. exact f8_variants. Qed.
+
+(* hypotheses of C11_reject_late_end, C11_order_independent (a consistent and an
+   inconsistent set) and C11_consistent_complete are satisfiable *)
+Example C11_ex_late_end :
+  let b := model_run (buf_new 17 [] []) [f8_first] in
+  f_endp f8_second <= 65535 /\ b_end b = None /\ f_mf f8_second = false /\
+  In (mkRange 0 16) (b_sections b) /\
+  (forall r', In r' (b_sections b) -> r_end r' <= r_end (mkRange 0 16)) /\
+  f_endp f8_second < r_end (mkRange 0 16).
+Proof.
+  cbv zeta. split; [vm_compute; discriminate|]. split; [vm_compute; reflexivity|]. split; [reflexivity|].
+  split; [vm_compute; left; reflexivity|]. split; [|vm_compute; reflexivity].
+  intros r' Hr'. vm_compute in Hr'. destruct Hr' as [Hr'|[]]. subst r'. vm_compute. discriminate.
+Qed.
+
+Example C11_ex_final_noop :
+  let b := model_run (buf_new 17 [] []) [f8_first] in
+  b_end b = None /\ sec_max (b_sections b) = Some 16 /\ len (b_data b) = 16 /\
+  accepts b (mkFrag 1 false [1;2;3;4;5;6;7;8]) /\ Inv b.
+Proof.
+  cbv zeta. split; [vm_compute; reflexivity|]. split; [vm_compute; reflexivity|]. split; [vm_compute; reflexivity|].
+  split; [|apply model_run_Inv, Inv_new].
+  split; [vm_compute; discriminate|]. split; [discriminate|]. split.
+  - intros p Hp. vm_compute in Hp. discriminate.
+  - intros _ _ r Hr. vm_compute in Hr. destruct Hr as [Hr|[]]. subst r. vm_compute. discriminate.
+Qed.
+
+Example C11_ex_order :
+  Permutation.Permutation [f8_first; f8_second] [f8_second; f8_first] /\
+  ~ consistent [f8_first; f8_second] /\
+  consistent [mkFrag 1 false [170;187;204;221]; mkFrag 0 true [0;1;2;3;4;5;6;7]] /\
+  GCovered [mkFrag 1 false [170;187;204;221]; mkFrag 0 true [0;1;2;3;4;5;6;7]].
+Proof.
+  split; [apply Permutation.perm_swap|]. split; [|split].
+  - intros [_ H]. specialize (H f8_second f8_first (or_intror (or_introl eq_refl)) (or_introl eq_refl) eq_refl).
+    vm_compute in H. apply H. reflexivity.
+  - rewrite <- (all_ok_iff _ 17 [] []). vm_compute. repeat constructor.
+  - rewrite <- (consistent_complete _ 17 [] []).
+    + vm_compute. reflexivity.
+    + rewrite <- (all_ok_iff _ 17 [] []). vm_compute. repeat constructor.
+Qed.
 
 (* ---- the pool ---- *)
 (* isolation: the answers to the deliveries of one stream id inside any
@@ -156,7 +272,7 @@ Theorem C11_passthrough : forall p k ts, is_fragmenting (k_frag k) = false ->
 Proof. exact passthrough. Qed.
 Print Assumptions C11_passthrough.
 
-(* whatever the history (reused buffers, conflicting fragments, F8 included):
+(* whatever the history (reused buffers, conflicting fragments):
    a payload handed out by the pool contains no unwritten / stale byte and the
    pool never reaches the out-of-range slice *)
 Theorem C11_pool_no_leak : forall ops id,
